@@ -219,6 +219,9 @@ func raceExtra(ctx *core.Ctx) (int, string, []core.ExtraFailure) {
 	evals += pairs
 	reps := parseRaces(se)
 	note += fmt.Sprintf("race detector: %d method pairs, %d calls, %d DATA RACE reports", pairs, iters, len(reps))
+	if f, ok := stuckFailure(so, bin, seed); ok {
+		return evals, note + "; a method pair deadlocked", append(fails, f)
+	}
 	if err != nil || pairs == 0 {
 		fails = append(fails, core.ExtraFailure{
 			Failure: core.Failure{Key: "racer-run", Desc: fmt.Sprintf("racer (pairs) did not complete: %v; stderr: %s", err, clipStr(se, 1500))},
@@ -242,6 +245,9 @@ func raceExtra(ctx *core.Ctx) (int, string, []core.ExtraFailure) {
 	fmt.Sscanf(strings.TrimSpace(lastLineWith(so, "HIST ")), "HIST rounds=%d ops=%d illegal=%d unknown=%d", &rounds, &ops, &illegal, &unknown)
 	evals += rounds
 	note += fmt.Sprintf("; histories: %d rounds, %d operations, %d not linearizable, %d undecided", rounds, ops, illegal, unknown)
+	if f, ok := stuckFailure(so, bin, seed); ok {
+		return evals, note + "; a history round deadlocked", append(fails, f)
+	}
 	if err != nil || rounds == 0 {
 		fails = append(fails, core.ExtraFailure{
 			Failure: core.Failure{Key: "racer-run", Desc: fmt.Sprintf("racer (hist) did not complete: %v; stderr: %s", err, clipStr(se2, 1500))},
@@ -284,6 +290,35 @@ func raceExtra(ctx *core.Ctx) (int, string, []core.ExtraFailure) {
 				"rerun": fmt.Sprintf("%s -mode hist -seed %s", bin, seed)}})
 		break
 	}
+	// ---- the same with more goroutines (8 × 3 operations per round)
+	{
+		wideDur, wideRounds := "1s", "100"
+		if ctx.Tier == "thorough" {
+			wideDur, wideRounds = "30s", "3000"
+		}
+		so, se5, err := runRacer(bin, timeout, "-mode", "hist", "-seed", seed, "-dur", wideDur, "-minrounds", wideRounds, "-g", "8", "-m", "3")
+		var r8, o8, i8, u8 int
+		fmt.Sscanf(strings.TrimSpace(lastLineWith(so, "HIST ")), "HIST rounds=%d ops=%d illegal=%d unknown=%d", &r8, &o8, &i8, &u8)
+		evals += r8
+		note += fmt.Sprintf("; histories 8 goroutines × 3: %d rounds, %d not linearizable, %d undecided", r8, i8, u8)
+		if f, ok := stuckFailure(so, bin, seed); ok {
+			fails = append(fails, f)
+		} else if err != nil || r8 == 0 {
+			fails = append(fails, core.ExtraFailure{
+				Failure: core.Failure{Key: "racer-run", Desc: fmt.Sprintf("racer (hist, 8 goroutines) did not complete: %v; stderr: %s", err, clipStr(se5, 1500))},
+				Payload: map[string]any{"stderr": clipStr(se5, 4000), "seed": seed}, NoInput: !strings.Contains(se5, "fatal error:")})
+		}
+		for _, l := range strings.Split(so, "\n") {
+			if strings.HasPrefix(l, "LIN ") {
+				raw := json.RawMessage(strings.TrimPrefix(l, "LIN "))
+				fails = append(fails, core.ExtraFailure{
+					Failure: core.Failure{Key: "not-linearizable", Desc: "a recorded concurrent history of 8 goroutines has no sequential explanation by a plain map"},
+					Payload: map[string]any{"seed": seed, "history": raw,
+						"rerun": fmt.Sprintf("%s -mode hist -seed %s -g 8 -m 3", bin, seed)}})
+				break
+			}
+		}
+	}
 	// ---- atomicity of the bulk operations (snapshot counts must be 0 or N)
 	bulkDur, minCycles := "1200ms", "40"
 	if ctx.Tier == "thorough" {
@@ -295,6 +330,9 @@ func raceExtra(ctx *core.Ctx) (int, string, []core.ExtraFailure) {
 		fmt.Sscanf(strings.TrimSpace(lastLineWith(so, "BULKSTAT ")), "BULKSTAT n=%d cycles=%d observations=%d witnesses=%d", &bn, &cycles, &obs, &wits)
 		evals += cycles
 		note += fmt.Sprintf("; bulk N=%s: %d fill/empty cycles, %d snapshot counts, %d not in {0,N}", n, cycles, obs, wits)
+		if f, ok := stuckFailure(so, bin, seed); ok {
+			return evals, note + "; the bulk run deadlocked", append(fails, f)
+		}
 		if err != nil || cycles == 0 {
 			fails = append(fails, core.ExtraFailure{
 				Failure: core.Failure{Key: "racer-run", Desc: fmt.Sprintf("racer (bulk) did not complete: %v; stderr: %s", err, clipStr(se3, 1500))},
@@ -324,7 +362,78 @@ func raceExtra(ctx *core.Ctx) (int, string, []core.ExtraFailure) {
 					"rerun": fmt.Sprintf("%s -mode bulk -seed %s -n %s", bin, seed, n)}})
 		}
 	}
+	// ---- large snapshots: one generation and its size per traversal (sizes beyond
+	// internal batching thresholds: 6000 / 12000 entries)
+	genDur, genCycles := "1500ms", "20"
+	if ctx.Escalate > 1 {
+		genDur, genCycles = "8s", "100" // the anchored source differs from the blessed tree
+	}
+	if ctx.Tier == "thorough" {
+		genDur, genCycles = "30s", "1000"
+	}
+	{
+		so, se4, err := runRacer(bin, timeout, "-mode", "gen", "-seed", seed, "-n", "6000", "-dur", genDur, "-mincycles", genCycles)
+		var gn, cycles, obs, wits, minper int
+		fmt.Sscanf(strings.TrimSpace(lastLineWith(so, "GENSTAT ")), "GENSTAT n=%d cycles=%d observations=%d witnesses=%d minperobserver=%d", &gn, &cycles, &obs, &wits, &minper)
+		evals += obs
+		note += fmt.Sprintf("; generations N=6000/12000: %d atomic generation changes, %d traversals (≥ %d per observer), %d inconsistent", cycles, obs, minper, wits)
+		if f, ok := stuckFailure(so, bin, seed); ok {
+			fails = append(fails, f)
+		} else if err != nil || cycles == 0 {
+			fails = append(fails, core.ExtraFailure{
+				Failure: core.Failure{Key: "racer-run", Desc: fmt.Sprintf("racer (gen) did not complete: %v; stderr: %s", err, clipStr(se4, 1500))},
+				Payload: map[string]any{"stderr": clipStr(se4, 4000), "seed": seed}, NoInput: !strings.Contains(se4, "fatal error:")})
+		}
+		for _, r := range parseRaces(se4) {
+			fails = append(fails, core.ExtraFailure{
+				Failure: core.Failure{Key: raceKey(r, ill), Desc: fmt.Sprintf("DATA RACE during the generation run (SafeKV methods in the report: %v)", r.Methods)},
+				Payload: map[string]any{"seed": seed, "race_report": r.Text}})
+		}
+		for _, l := range strings.Split(so, "\n") {
+			if !strings.HasPrefix(l, "GEN ") {
+				continue
+			}
+			var w struct {
+				Observer string `json:"observer"`
+				N        int    `json:"n"`
+				Gens     []int  `json:"generations_seen_in_one_traversal"`
+				Count    int    `json:"entries_seen"`
+			}
+			raw := json.RawMessage(strings.TrimPrefix(l, "GEN "))
+			_ = json.Unmarshal(raw, &w)
+			fails = append(fails, core.ExtraFailure{
+				Failure: core.Failure{Key: "not-atomic:" + w.Observer, Desc: fmt.Sprintf("one %s traversal saw generations %v and %d entries while the map only ever holds one generation g with %d (even g) or %d (odd g) entries between calls: the traversal is not one snapshot", w.Observer, w.Gens, w.Count, w.N, 2*w.N)},
+				Payload: map[string]any{"witness": raw, "methods": []string{w.Observer, "Map"},
+					"rerun": fmt.Sprintf("%s -mode gen -seed %s -n 6000", bin, seed)}})
+		}
+	}
 	return evals, note, fails
+}
+
+// stuckFailure turns a STUCK line of the racer (calls that never returned, with the
+// dump of the goroutines parked on the RWMutex) into a concrete failure.
+func stuckFailure(stdout, bin, seed string) (core.ExtraFailure, bool) {
+	l := lastLineWith(stdout, "STUCK ")
+	if l == "" {
+		return core.ExtraFailure{}, false
+	}
+	var w struct {
+		Mode string `json:"mode"`
+		What string `json:"what"`
+	}
+	raw := json.RawMessage(strings.TrimPrefix(l, "STUCK "))
+	_ = json.Unmarshal(raw, &w)
+	return core.ExtraFailure{
+		Failure: core.Failure{Key: "deadlock", Desc: fmt.Sprintf("SafeKV calls never returned (%s %s): the goroutines are parked on the RWMutex although every caller was told to stop — a method leaves the lock held", w.Mode, clipStr(w.What, 300))},
+		Payload: map[string]any{"witness": raw, "seed": seed,
+			"rerun": stuckRerun(bin, w.Mode, w.What, seed)}}, true
+}
+
+func stuckRerun(bin, mode, what, seed string) string {
+	if mode == "PAIR" {
+		return fmt.Sprintf("%s -mode pairs -pair %s -seed %s", bin, strings.Join(strings.Fields(what), ","), seed)
+	}
+	return fmt.Sprintf("%s -mode %s -seed %s", bin, strings.ToLower(mode), seed)
 }
 
 // raceKey names the culprit: the ill-locked method(s) (per the extracted facts)
